@@ -1,5 +1,7 @@
 package main
 
+import "strings"
+
 // C02 — only payloads signed by a trusted key with an allowed algorithm are believed (DESIGN §5 C02).
 
 func init() {
@@ -45,6 +47,11 @@ func init() {
 			Req: []string{"ok(oidc.ParseToken($authReq.RequestParam, $ro))", "def($payload, oidc.ParseToken($authReq.RequestParam, $ro), 0)",
 				"ok(oidc.CheckSignature(_, $authReq.RequestParam, $payload, $ro, nil, &jwtProfileKeySet{storage: $storage, clientID: $ro.Issuer}))"}},
 
+		// the JWKS decoder keeps every published key it can parse (dropping one changes which keys are candidates: ambiguity
+		// between several kid-less keys must stay visible to FindMatchingKey)
+		{ID: "E1.keyset.remote.decoder-keeps-every-key", Fn: "client/rp.(*jsonWebKeySet).UnmarshalJSON", P: []string{"k", "data"}, Kind: "backedge", Pat: "backedge($raw.Keys)",
+			Why: "an iteration ends either with a key that could not be parsed or with that key appended to the set",
+			Req: []string{"fail($w.UnmarshalJSON(_)) || called(append($k.Keys, *$w))"}},
 		// key sets: the candidates handed to key selection are the last successfully downloaded set (cached path) resp. the
 		// set the refresh returned (remote path) - never another container (a withdrawn key must stop being trusted)
 		{ID: "E8.keyset.remote.cached-candidates", Fn: "client/rp.(*remoteKeySet).verifySignatureCached", P: []string{"r", "jws", "keyID", "alg"}, Kind: "call", Pat: "oidc.FindMatchingKey(_, _, _, $keys)", Max: 1,
@@ -82,6 +89,14 @@ func init() {
 		{ID: "E7.algkeytype.rsa", Fn: "oidc.algToKeyType", P: []string{"key", "alg"}, Kind: "ret ok",
 			Why: "a key fits an algorithm only if its Go type is the public-key type of that algorithm family",
 			Req: []string{`((true(strings.HasPrefix($alg, "RS")) || true(strings.HasPrefix($alg, "PS"))) && is($key, *rsa.PublicKey)) || (true(strings.HasPrefix($alg, "ES")) && is($key, *ecdsa.PublicKey)) || (eq($alg, jose.EdDSA) && is($key, ed25519.PublicKey))`}},
+	}
+	for _, o := range obs {
+		if strings.HasPrefix(o.ID, "E1.keyset.op") {
+			sharedObs["C06"] = append(sharedObs["C06"], o) // "passes the library's own verifiers": the OP's key set selects keys like every verifier (FindMatchingKey)
+		}
+		if strings.HasPrefix(o.ID, "E1.parse.") {
+			sharedObs["C01"] = append(sharedObs["C01"], o)
+		}
 	}
 	register(&PropSpec{
 		ID: "C02",
